@@ -112,17 +112,20 @@ Proof.
            rewrite Hex in E4. discriminate.
 Qed.
 
-Definition keys_ok : bool := match chk ALLKEYS with Some _ => true | None => false end.
+Definition chk_b (l : list N) : bool := match chk l with Some _ => true | None => false end.
 
-Lemma keys_ok_true : keys_ok = true.
-Proof. vm_cast_no_check (eq_refl true). Qed.
-
-Theorem key_min_distance : forall s, sub s ALLKEYS -> (1 <= length s <= 4)%nat -> xors s <> 0.
+(* generic in the list: no computation happens in this proof *)
+Lemma chk_b_sound l : chk_b l = true -> forall s, sub s l -> (1 <= length s <= 4)%nat -> xors s <> 0.
 Proof.
-  pose proof keys_ok_true as H. unfold keys_ok in H.
-  destruct (chk ALLKEYS) as [st|] eqn:E; [|discriminate].
+  unfold chk_b. intros H. destruct (chk l) as [st|] eqn:E; [|discriminate].
   apply chk_inv in E. destruct st as [[t s1] p]. destruct E as (_ & _ & _ & I3). exact I3.
 Qed.
 
+Lemma keys_ok_true : chk_b ALLKEYS = true.
+Proof. vm_cast_no_check (eq_refl true). Qed.
+
+Theorem key_min_distance : forall s, sub s ALLKEYS -> (1 <= length s <= 4)%nat -> xors s <> 0.
+Proof. exact (chk_b_sound ALLKEYS keys_ok_true). Qed.
+
 Lemma allkeys_length : length ALLKEYS = 781%nat.
-Proof. reflexivity. Qed.
+Proof. vm_compute. reflexivity. Qed.
